@@ -412,6 +412,14 @@ def override_case(V, spec, P, St, C, cfg):
     V.check('override_reaches_named_only', not wrong and tpath in found,
             lambda: ('schema override for %s (via %s): default of S.n per process (42 = overridden)' % (target, via),
                      {'.'.join(p): d for p, d in found.items()}))
+    # several targets in one override, the one inside the nested compartment listed first: all are reached
+    multi = {'sub': {'q': {'S': {'n': {'_default': 61}}}}, 'p1': {'S': {'n': {'_default': 62}}}, 'p0': {'S': {'n': {'_default': 63}}}}
+    cm = C(dict(cfg, mixed=False, _schema=multi)).generate()
+    got = {'sub.q': cm['processes']['sub']['q'].get_schema()['S']['n']['_default'],
+           'p1': cm['processes']['p1'].get_schema()['S']['n']['_default'],
+           'p0': cm['processes']['p0'].get_schema()['S']['n']['_default']}
+    V.check('override_reaches_named_only', got == {'sub.q': 61, 'p1': 62, 'p0': 63},
+            lambda: ('one override naming three processes (the nested one first): defaults of S.n', got))
     # the same composer, configured with the override, generated through a MetaComposer
     from vivarium.core.composer import MetaComposer
     found.clear()
